@@ -9,6 +9,7 @@ import "errors"
 
 var _ = verifReg("C01p1", VerifC01p1)
 var _ = verifReg("C01p2", VerifC01p2)
+var _ = verifReg("C01hist", VerifC01hist)
 
 func verifOptionalOK(err error) bool {
 	return err == nil || errors.Is(err, ErrMissingOptional)
@@ -87,4 +88,62 @@ func VerifC01p2() {
 	vs, e9 := g.c.GetVSI()
 	ndAssert("p2-post-vsi", verifOptionalOK(e9) && (e9 != nil || (g.hasVSI && vs == g.vsi && vs != "")))
 	ndAssert("p2-post-vsi-missing", (e9 != nil) == !g.hasVSI)
+}
+
+// C01 "the verdict depends on nothing else": the components are installed through the SETTER
+// from a valid list and then edited in place through the pointers the caller still holds (to
+// the arbitrary values of the generator); validation must judge the values the claims-set has
+// NOW, whatever was checked when they were installed.
+func VerifC01hist() {
+	c, g1, g2 := verifGenClaims()
+	var sw *genSws
+	if g1 != nil {
+		sw = g1.sw
+	} else {
+		sw = g2.sw
+	}
+	n := sw.count()
+	if sw.isNilIface || n == 0 {
+		return
+	}
+	var inst []*SwComponent
+	var list []ISwComponent
+	for i := 0; i < n; i++ {
+		v := genSwComponent(ndName("hist", i), 4)
+		ndAssume(v.specValid())
+		inst = append(inst, v.sc)
+		list = append(list, v.sc)
+	}
+	if err := c.SetSoftwareComponents(list); err != nil {
+		ndAssert("c01-hist-valid-list-is-accepted", false)
+		return
+	}
+	if g1 != nil {
+		// profile 1: installing a non-empty list withdraws the no-measurements flag
+		g1.hasNoSw = false
+		ndAssert("c01-hist-list-and-flag-exclusive", g1.c.NoSwMeasurements == nil)
+	}
+	for i := 0; i < n; i++ {
+		*inst[i] = *sw.comps[i].sc // in-place edit: the installed component now holds the generator's values
+	}
+	var want bool
+	if g1 != nil {
+		want = g1.specValid()
+	} else {
+		want = g2.specValid()
+	}
+	err := c.Validate()
+	ndAssert("c01-hist-validate-judges-current-values", (err == nil) == want)
+	scs, gerr := c.GetSoftwareComponents()
+	if err == nil {
+		ok := gerr == nil && len(scs) == n
+		for i := 0; ok && i < n; i++ {
+			mv, e1 := scs[i].GetMeasurementValue()
+			sid, e2 := scs[i].GetSignerID()
+			ok = e1 == nil && e2 == nil && verifSameBytes(mv, sw.comps[i].mv) && verifSameBytes(sid, sw.comps[i].sid)
+		}
+		ndAssert("c01-hist-getters-after-validation", ok)
+	}
+	ndCover("c01-hist-valid", err == nil)
+	ndCover("c01-hist-invalid-component", err != nil && !sw.allValid())
 }
